@@ -192,6 +192,34 @@ func desEnc(key, block []byte) []byte {
 }
 
 func c01Cases(c *h.Ctx) error {
+	type hcase struct {
+		in   string
+		want string
+	}
+	var lmH, ntH, md4H []hcase
+	var dccH []struct{ pw, user, want string }
+	defer func() {
+		// histories of length 2 (every ordered pair of a representative subset): a hash of one input may not depend on
+		// what was hashed before (package-level buffers, caches)
+		pick := func(xs []hcase, max int) []hcase {
+			if len(xs) <= max {
+				return xs
+			}
+			out := []hcase{}
+			for i := 0; i < max; i++ {
+				out = append(out, xs[i*len(xs)/max])
+			}
+			return out
+		}
+		lm2, nt2, md2 := pick(lmH, 64), pick(ntH, 24), pick(md4H, 16)
+		h.Pairwise(c, "lm.LMHash", len(lm2), func(i int) string { return hex.EncodeToString(lm.LMHash(lm2[i].in)) }, func(i int) string { return lm2[i].want }, func(i int) interface{} { return lm2[i].in })
+		h.Pairwise(c, "nt.NTHash", len(nt2), func(i int) string { x := nt.NTHash(nt2[i].in); return hex.EncodeToString(x[:]) }, func(i int) string { return nt2[i].want }, func(i int) interface{} { return []rune(nt2[i].in) })
+		h.Pairwise(c, "md4.Sum", len(md2), func(i int) string { x := md4.Sum([]byte(md2[i].in)); return hex.EncodeToString(x[:]) }, func(i int) string { return md2[i].want }, func(i int) interface{} { return len(md2[i].in) })
+		if len(dccH) > 12 {
+			dccH = dccH[:12]
+		}
+		h.Pairwise(c, "dcc.DCCHashFromPassword", len(dccH), func(i int) string { x := dcc.DCCHashFromPassword(dccH[i].pw, dccH[i].user); return hex.EncodeToString(x[:]) }, func(i int) string { return dccH[i].want }, func(i int) interface{} { return dccH[i].user })
+	}()
 	return c.Lines(func(raw []byte) error {
 		var k c01Case
 		if err := json.Unmarshal(raw, &k); err != nil {
@@ -213,6 +241,7 @@ func c01Cases(c *h.Ctx) error {
 				c.Fail("md4.MD4.HexSum", "digest", fmt.Sprintf("len %d: spec %x code %s", len(k.M), []byte(k.D), hx), smp)
 			}
 			c.Sample(map[string]interface{}{"kind": "md4", "len": len(k.M), "digest": h.Hex(k.D)})
+			md4H = append(md4H, hcase{string(k.M), h.Hex(k.D)})
 		case "nt":
 			pw := cps(k.PwRaw)
 			c.Case("nt:" + pw)
@@ -223,6 +252,7 @@ func c01Cases(c *h.Ctx) error {
 			}
 			got := nt.NTHash(pw)
 			hx := nt.NTHashHex(pw)
+			ntH = append(ntH, hcase{pw, h.Hex(k.D)})
 			c.Exec(3)
 			if !bytes.Equal(got[:], k.D) {
 				c.Fail("nt.NTHash", "digest", fmt.Sprintf("spec %x code %x", []byte(k.D), got), smp)
@@ -237,6 +267,7 @@ func c01Cases(c *h.Ctx) error {
 			want := append(desEnc(k.K1, magic), desEnc(k.K2, magic)...)
 			got := lm.LMHash(pw)
 			hx := lm.LMHashToHex(pw)
+			lmH = append(lmH, hcase{pw, hex.EncodeToString(want)})
 			c.Exec(2)
 			smp := map[string]interface{}{"password_bytes": k.PwRaw, "des_keys": h.Hex(k.K1) + " " + h.Hex(k.K2)}
 			if !bytes.Equal(got, want) {
@@ -251,6 +282,7 @@ func c01Cases(c *h.Ctx) error {
 			var nth [16]byte
 			copy(nth[:], k.NT)
 			smp := map[string]interface{}{"password_codepoints": k.PwRaw, "user_codepoints": k.User}
+			dccH = append(dccH, struct{ pw, user, want string }{pw, user, h.Hex(k.D)})
 			a := dcc.DCCHashFromPassword(pw, user)
 			b := dcc.DCCHashFromNTHash(nth, user)
 			c.Exec(6)
